@@ -279,6 +279,7 @@ func (x *Exec) applyContract(st *State, spec *FuncSpec, fn *ssa.Function, args [
 		st.assume(Ge(na, st.alloc))
 		st.alloc = na
 	}
+	st.flushAxioms()
 	// results
 	var results *types.Tuple
 	if fn != nil {
@@ -445,8 +446,18 @@ func (x *Exec) resolveModifies(st *State, spec *FuncSpec, env *Env) modLocs {
 		case mi.Coarse:
 			raw := mi.Raw
 			if strings.HasPrefix(raw, "contents(") && strings.HasSuffix(raw, ")") {
-				t := env.pkg.resolveType(raw[len("contents(") : len(raw)-1])
+				// all contents(MapType @ region)
+				inner := raw[len("contents(") : len(raw)-1]
+				region := ""
+				if k := strings.Index(inner, "@"); k >= 0 {
+					region = strings.TrimSpace(inner[k+1:])
+					inner = strings.TrimSpace(inner[:k])
+				}
+				t := env.pkg.resolveType(inner)
 				n := mapKeyName(t)
+				if region != "" {
+					n = region
+				}
 				ml.coarse["mapdom:"+n] = true
 				ml.coarse["mapcard:"+n] = true
 				for _, c := range comps(mapType(t).Elem()) {
@@ -492,7 +503,7 @@ func (x *Exec) resolveModifies(st *State, spec *FuncSpec, env *Env) modLocs {
 				}
 				sfail("contents() of non-map %s", typeName(m.Typ))
 			}
-			n := mapKeyName(m.Typ)
+			n := regionOf(m)
 			ml.precise["mapdom:"+n] = append(ml.precise["mapdom:"+n], m.T())
 			ml.precise["mapcard:"+n] = append(ml.precise["mapcard:"+n], m.T())
 			for _, c := range comps(mt.Elem()) {
